@@ -125,6 +125,12 @@ class Action(BaseForm):
 
     def __init__(self, left, right):
         """Initialise."""
+        if getattr(self, "ufl_operands", None) is not None:
+            # `Action.__new__` simplified the action of an identity
+            # (Coargument/Argument) to the other operand, which is an
+            # existing, already initialised Action: Python calls
+            # `__init__` on it again and its operands must be kept.
+            return
         BaseForm.__init__(self)
 
         self._left = left
